@@ -4,6 +4,7 @@ package server
 
 import (
 	"encoding/json"
+	"fmt"
 	"net/http"
 	"os"
 	"strconv"
@@ -56,6 +57,8 @@ func init() {
 					strs = append(strs, v)
 				case int:
 					strs = append(strs, strconv.Itoa(v))
+				case chan struct{}:
+					strs = append(strs, fmt.Sprintf("%p", v))
 				case *http.Request:
 					strs = append(strs, v.Header.Get("X-Verif-Req"))
 				case error:
